@@ -115,7 +115,7 @@ func runC01(c *core.Ctx, o Options) {
 		c.Check(ok && n == 1, "L4", "Message.ToBytes", "returns the wire image only after a successful recomputation on the same call", tob.Pos(), "Prepare() == nil ⇒ return prepared", "ToBytes can return bytes without (successfully) running Prepare first: a stale image")
 	}
 	// ---- layouts
-	ppaths, _ := an.EnumPaths(prep, 64)
+	ppaths, _ := an.EnumPathsX(prep, 64)
 	var okPath *an.Path
 	for _, p := range ppaths {
 		if p.Return != nil && len(p.Results) == 1 && p.Results[0] == "nil" {
@@ -132,12 +132,20 @@ func runC01(c *core.Ctx, o Options) {
 	}
 	// the final store to prepared on the success path
 	var lastStore *ssa.Store
-	for _, b := range okPath.Blocks {
-		for _, in := range b.Instrs {
-			if st, ok := in.(*ssa.Store); ok {
-				if fa, ok := st.Addr.(*ssa.FieldAddr); ok && an.FieldOf(fa) == prepared {
-					lastStore = st
-				}
+	seq := okPath.InstrSeq()
+	idx := func(in ssa.Instruction) int {
+		for i, x := range seq {
+			if x == in {
+				return i
+			}
+		}
+		return -1
+	}
+	before := func(a, b ssa.Instruction) bool { return idx(a) >= 0 && idx(a) < idx(b) }
+	for _, in := range seq {
+		if st, ok := in.(*ssa.Store); ok {
+			if fa, ok := st.Addr.(*ssa.FieldAddr); ok && an.FieldOf(fa) == prepared {
+				lastStore = st
 			}
 		}
 	}
@@ -152,7 +160,8 @@ func runC01(c *core.Ctx, o Options) {
 	var bwcCall, cblCall, ccsCall *ssa.Call
 	var setCall *ssa.Call
 	var blStore *ssa.Store
-	an.AllInstrs(prep, func(in ssa.Instruction) {
+	// (on the success path, helpers cut out of Prepare included)
+	for _, in := range seq {
 		switch x := in.(type) {
 		case *ssa.Call:
 			switch {
@@ -166,36 +175,34 @@ func runC01(c *core.Ctx, o Options) {
 				setCall = x
 			}
 		case *ssa.Store:
-			if fa, ok := x.Addr.(*ssa.FieldAddr); ok && an.FieldName(an.FieldOf(fa)) == "Value" && an.Render(fa.X) == "msg.bodyLength" {
+			if fa, ok := x.Addr.(*ssa.FieldAddr); ok && an.FieldName(an.FieldOf(fa)) == "Value" && an.RenderOnPath(fa.X, okPath) == "msg.bodyLength" {
 				blStore = x
 			}
 		}
-	})
+	}
 	if !c.Anchor("recomputation steps", bwcCall != nil && cblCall != nil && ccsCall != nil && setCall != nil && blStore != nil, "CalcBodyLength, store to bodyLength.Value, BytesWithoutChecksum, CalcCheckSum, checkSum.Set", prep.Pos()) {
 		return
 	}
-	bwcAtom := an.Render(bwcCall)
-	chkAtom := an.Render(ccsCall)
+	bwcAtom := an.RenderOnPath(bwcCall, okPath)
+	chkAtom := an.RenderOnPath(ccsCall, okPath)
 	keyAtom := "msg.checkSum.Key"
 	wantOuter := an.Seq{{Atom: bwcAtom}, {Bytes: []byte{1}}, {Atom: keyAtom}, {Bytes: []byte{'='}}, {Atom: chkAtom}, {Bytes: []byte{1}}}
 	c.Check(outer.Equal(wantOuter), "L1", "Message.Prepare", "wire image = prefix · SOH · checkSum tag · '=' · CHK · SOH", lastStore.Pos(), outer.String(), "the image stored is "+outer.String()+"; expected "+wantOuter.String())
 	// L3
-	c.Check(ccsCall.Call.Args[0] == ssa.Value(bwcCall), "L3", "Message.Prepare", "the checksum is computed over exactly the emitted prefix", ccsCall.Pos(), "CalcCheckSum(<the prefix that is emitted>)", "CalcCheckSum is applied to "+an.Render(ccsCall.Call.Args[0])+", which is not the prefix placed in the wire image")
-	okSet := an.Render(setCall.Call.Value) == "msg.checkSum.Value" && an.Render(setCall.Call.Args[0]) == "string("+chkAtom+")"
+	c.Check(an.ResolveOnPath(ccsCall.Call.Args[0], okPath) == ssa.Value(bwcCall), "L3", "Message.Prepare", "the checksum is computed over exactly the emitted prefix", ccsCall.Pos(), "CalcCheckSum(<the prefix that is emitted>)", "CalcCheckSum is applied to "+an.Render(ccsCall.Call.Args[0])+", which is not the prefix placed in the wire image")
+	okSet := an.RenderOnPath(setCall.Call.Value, okPath) == "msg.checkSum.Value" && an.RenderOnPath(setCall.Call.Args[0], okPath) == "string("+chkAtom+")"
 	c.Check(okSet, "L3", "Message.Prepare", "the CheckSum field's value is the emitted CHK", setCall.Pos(), "checkSum.Value.Set(string(CHK))", "checkSum.Value is set to "+an.Render(setCall.Call.Args[0]))
 	// L2 ordering
-	okOrd := an.Dominates(cblCall, blStore) && an.Dominates(blStore, bwcCall) && an.Render(blStore.Val) == "fix.NewInt("+an.Render(cblCall)+")"
+	okOrd := before(cblCall, blStore) && before(blStore, bwcCall) && an.RenderOnPath(blStore.Val, okPath) == "fix.NewInt("+an.RenderOnPath(cblCall, okPath)+")"
 	c.Check(okOrd, "L2", "Message.Prepare", "bodyLength.Value ← NewInt(CalcBodyLength()) before the prefix is assembled", blStore.Pos(), "store dominates BytesWithoutChecksum()", "the BodyLength field is not refreshed from CalcBodyLength() before the prefix (and hence the checksum) is computed")
 	// nothing touches header/body/trailer between the two computations
 	mutated := ""
-	for _, b := range okPath.Blocks {
-		for _, in := range b.Instrs {
-			if st, ok := in.(*ssa.Store); ok && an.Dominates(cblCall, st) && an.Dominates(st, lastStore) {
-				if fa, ok := st.Addr.(*ssa.FieldAddr); ok {
-					n := an.FieldName(an.FieldOf(fa))
-					if n == "header" || n == "body" || n == "trailer" || n == "msgType" || n == "beginString" {
-						mutated = n
-					}
+	for _, in := range seq {
+		if st, ok := in.(*ssa.Store); ok && before(cblCall, st) && before(st, lastStore) {
+			if fa, ok := st.Addr.(*ssa.FieldAddr); ok {
+				n := an.FieldName(an.FieldOf(fa))
+				if n == "header" || n == "body" || n == "trailer" || n == "msgType" || n == "beginString" {
+					mutated = n
 				}
 			}
 		}
@@ -312,37 +319,7 @@ func splitConst(s an.Seq) an.Seq {
 	return out
 }
 
-func pkgFuncs(pkg *ssa.Package) []*ssa.Function {
-	var out []*ssa.Function
-	if pkg == nil {
-		return nil
-	}
-	seen := map[*ssa.Function]bool{}
-	add := func(fn *ssa.Function) {
-		for _, f := range an.WithAnon(fn) {
-			if !seen[f] && len(f.Blocks) > 0 {
-				seen[f] = true
-				out = append(out, f)
-			}
-		}
-	}
-	for _, name := range an.SortedKeys(pkg.Members) {
-		switch mem := pkg.Members[name].(type) {
-		case *ssa.Function:
-			add(mem)
-		case *ssa.Type:
-			for _, t := range []types.Type{mem.Type(), types.NewPointer(mem.Type())} {
-				ms := pkg.Prog.MethodSets.MethodSet(t)
-				for i := 0; i < ms.Len(); i++ {
-					if fn := pkg.Prog.MethodValue(ms.At(i)); fn != nil && fn.Pkg == pkg && fn.Synthetic == "" {
-						add(fn)
-					}
-				}
-			}
-		}
-	}
-	return out
-}
+func pkgFuncs(pkg *ssa.Package) []*ssa.Function { return an.PkgFuncs(pkg) }
 
 // checkChecksumFn (S1).
 func checkChecksumFn(c *core.Ctx, rule string, fn *ssa.Function) {
